@@ -637,6 +637,8 @@ func (l *IPFSLog) Join(otherLog iface.IPFSLog, size int) (iface.IPFSLog, error) 
 		}
 	}
 
+	verifPoint(l, "join.headsmerged")
+
 	l.heads = entry.NewOrderedMapFromEntries(mergedHeads)
 
 	verifPoint(l, "join.applied")
